@@ -443,7 +443,8 @@ Qed.
 Definition stmts_of (l : list block) : list stmt :=
   flat_map (fun b => match b with Other ss _ => ss | Imps _ => [] end) l.
 Definition noncode (s : stmt) : Prop := s_kind s <> KCode.
-Definition is_string (s : stmt) : bool := match s_kind s with KString => true | _ => false end.
+Definition is_string (s : stmt) : bool := match s_kind s with KString | KBytes => true | _ => false end.
+Definition is_bytes (s : stmt) : bool := match s_kind s with KBytes => true | _ => false end.
 Definition n_strings (ss : list stmt) : nat := length (filter is_string ss).
 
 Lemma first_nonprologue_spec c : forall ss seen,
@@ -471,6 +472,15 @@ Proof.
         -- destruct IH as [H2 H3]. cbn [filter]. unfold is_string at 1. rewrite K. cbn [length].
            split; [constructor; [unfold noncode; rewrite K; discriminate|exact H2]|].
            intros H9. specialize (H3 H9). rewrite H9 in E9. cbn in E9. subst seen. lia.
+    + destruct (f40 c || f9 c && seen) eqn:E9.
+      * cbn [firstn filter length]. split; [lia|]. split; [constructor|]. intros _. destruct seen; lia.
+      * specialize (IH true). destruct (first_nonprologue c ss true) as [k|]; cbn [option_map].
+        -- destruct IH as [H1 [H2 H3]]. cbn [firstn length filter]. unfold is_string at 1. rewrite K. cbn [length].
+           split; [lia|]. split; [constructor; [unfold noncode; rewrite K; discriminate|exact H2]|].
+           intros H9. specialize (H3 H9). rewrite H9 in E9. apply orb_false_iff in E9. destruct E9 as [_ E9]. cbn in E9. subst seen. lia.
+        -- destruct IH as [H2 H3]. cbn [filter]. unfold is_string at 1. rewrite K. cbn [length].
+           split; [constructor; [unfold noncode; rewrite K; discriminate|exact H2]|].
+           intros H9. specialize (H3 H9). rewrite H9 in E9. apply orb_false_iff in E9. destruct E9 as [_ E9]. cbn in E9. subst seen. lia.
     + cbn [firstn filter length]. split; [lia|]. split; [constructor|]. intros _. destruct seen; cbn; lia.
 Qed.
 
@@ -501,6 +511,44 @@ Proof.
       * split; [reflexivity|]. split; [exact H2|]. intros H9. specialize (H3 H9). lia.
   - intros H; inversion H; subst. exists [], (Imps ib0 :: rest0).
     split; [reflexivity|]. split; [reflexivity|]. split; [constructor|]. intros _. cbn. lia.
+Qed.
+
+(* F40: with the repair no bytes-literal statement is in front of a new import block *)
+Definition nobytes (s : stmt) : Prop := is_bytes s = false.
+
+Lemma first_nonprologue_nobytes c : f40 c = true -> forall ss seen,
+  match first_nonprologue c ss seen with
+  | Some k => Forall nobytes (firstn k ss)
+  | None => Forall nobytes ss
+  end.
+Proof.
+  intros H40. induction ss as [|s ss IH]; intros seen; cbn [first_nonprologue]; [constructor|].
+  destruct (s_kind s) eqn:K.
+  - specialize (IH seen). destruct (first_nonprologue c ss seen) as [k|]; cbn [option_map firstn];
+      (constructor; [unfold nobytes, is_bytes; rewrite K; reflexivity|exact IH]).
+  - destruct (f9 c && seen); [constructor|].
+    specialize (IH true). destruct (first_nonprologue c ss true) as [k|]; cbn [option_map firstn];
+      (constructor; [unfold nobytes, is_bytes; rewrite K; reflexivity|exact IH]).
+  - rewrite H40. cbn [orb]. constructor.
+  - constructor.
+Qed.
+
+Theorem new_block_not_after_bytes c bs bs' nb :
+  f40 c = true -> insert_new c bs = Ok (bs', nb) ->
+  exists pro rest, bs' = pro ++ Imps nb :: sep_block :: rest /\ Forall nobytes (stmts_of pro).
+Proof.
+  intros H40. unfold insert_new. destruct bs as [|b0 rest0]; [discriminate|].
+  destruct b0 as [ss o|ib0].
+  - pose proof (first_nonprologue_nobytes c H40 ss false) as Hs.
+    destruct (first_nonprologue c ss false) as [[|k]|] eqn:Ef; intros H; inversion H; subst; clear H.
+    + exists [], (Other ss o :: rest0). split; [reflexivity|constructor].
+    + exists [Other (firstn (S k) ss) None], (Other (skipn (S k) ss) None :: rest0).
+      split; [reflexivity|]. cbn [stmts_of flat_map]. rewrite app_nil_r. exact Hs.
+    + exists (Other ss o :: (if f38 c && unterminated ss then [nl_block] else [])), rest0.
+      split; [rewrite <- app_comm_cons; reflexivity|].
+      destruct (f38 c && unterminated ss); cbn [stmts_of flat_map nl_block app]; rewrite ?app_nil_r; [|exact Hs].
+      apply Forall_app. split; [exact Hs|]. constructor; [reflexivity|constructor].
+  - intros H; inversion H; subst. exists [], (Imps ib0 :: rest0). split; [reflexivity|constructor].
 Qed.
 
 (* ---------------------------------------------------------------------------------------------- *)
